@@ -21,9 +21,13 @@ import (
 // /v1/metrics and /v1/backends handlers) must add up against the harness' own tallies.
 
 type c13Sys struct {
-	k      *lbp.VKit
-	mux    http.Handler
-	issued int
+	// before[name]: requests sent under the name before its backend was removed and registered
+	// again: they are the business of the backend that is gone
+	before  map[string]int
+	orphans int
+	k       *lbp.VKit
+	mux     http.Handler
+	issued  int
 }
 
 type c13Metrics struct {
@@ -78,26 +82,39 @@ func (y *c13Sys) audit(inflight map[string]int) (string, string) {
 		return "C13/total-requests-wrong", fmt.Sprintf("total_requests=%d but %d requests reached the balancer", m.Total, y.issued)
 	}
 	// (a request still in flight has no outcome yet)
-	pending := uint64(0)
+	pending := uint64(y.orphans) // requests in flight at a backend that has been removed meanwhile
 	for _, n := range inflight {
 		pending += uint64(n)
 	}
 	if m.Successful+m.Failed+m.RateLimited+pending != m.Total {
 		return "C13/request-not-counted-in-exactly-one-outcome", fmt.Sprintf("successful(%d)+failed(%d)+rate_limited(%d) = %d, %d still in flight, but total_requests = %d", m.Successful, m.Failed, m.RateLimited, m.Successful+m.Failed+m.RateLimited, pending, m.Total)
 	}
+	// (backend names are not unique: the published numbers of a name are those of all the
+	// backends registered under it)
+	sent := map[string]int{}
+	for _, st := range y.k.Stubs() {
+		sent[strings.SplitN(st.Host(), ".", 2)[0]] += st.Hits()
+	}
+	for name, n := range y.before {
+		sent[name] -= n // what a backend of that name was sent before it was removed and registered anew
+	}
 	for _, st := range y.k.Stubs() {
 		name := strings.SplitN(st.Host(), ".", 2)[0]
 		// (a request still in flight is booked when it ends)
-		if got := int(m.Backends[name].Total); got != st.Hits()-inflight[name] {
-			return "C13/per-backend-total-differs-from-requests-sent", fmt.Sprintf("backend %s was sent %d requests (%d of them still in flight) but its published total_requests is %d", name, st.Hits(), inflight[name], got)
+		if got := int(m.Backends[name].Total); got != sent[name]-inflight[name] {
+			return "C13/per-backend-total-differs-from-requests-sent", fmt.Sprintf("backend %s was sent %d requests (%d of them still in flight) but its published total_requests is %d", name, sent[name], inflight[name], got)
 		}
 		if got := int(m.Backends[name].Active); got != inflight[name] {
 			return "C13/gauge/metrics-mirror-differs-from-in-flight", fmt.Sprintf("backend %s has %d requests in flight but the metrics endpoint publishes active_connections=%d", name, inflight[name], got)
 		}
 	}
+	listed := map[string]int{}
 	for _, bi := range infos {
-		if int(bi.ActiveConnections) != inflight[bi.Name] {
-			return "C13/gauge/backends-endpoint-differs-from-in-flight", fmt.Sprintf("backend %s has %d requests in flight but /v1/backends publishes active_connections=%d", bi.Name, inflight[bi.Name], bi.ActiveConnections)
+		listed[bi.Name] += int(bi.ActiveConnections)
+	}
+	for _, bi := range infos {
+		if listed[bi.Name] != inflight[bi.Name] {
+			return "C13/gauge/backends-endpoint-differs-from-in-flight", fmt.Sprintf("backend %s has %d requests in flight but /v1/backends publishes active_connections=%d (all entries of that name together)", bi.Name, inflight[bi.Name], listed[bi.Name])
 		}
 	}
 	return "", ""
@@ -109,7 +126,14 @@ func (y *c13Sys) audit(inflight map[string]int) (string, string) {
 var c13Events = []string{"req-ok", "req-404", "req-500", "req-refused", "req-abort", "eject-all", "clock+1.1s", "clock+11s", "req-client-gone", "req-103-then-500",
 	"start-held", "finish-held", "req-upgrade-declined",
 	// a backend registered at run time (once per history): it starts with no requests on record
-	"add-backend"}
+	"add-backend",
+	// a second backend registered under a name already in use (names are not unique; once per
+	// history): what is on record for the name stays on record
+	"add-same-name",
+	// b0 is removed and registered again under the same name and address (once per history),
+	// possibly while a request is in flight at it: the new backend starts with nothing on record,
+	// and what the old one still finishes is not booked to it
+	"readd-b0"}
 
 type c13Params struct {
 	Strategy         string
@@ -123,11 +147,15 @@ type c13Inst struct {
 	out   string
 	held  *lbp.VHeld
 	added bool
+	twin  bool
+	// readded: b0 has been removed and registered again; heldGone: the held request is in
+	// flight at the b0 that is gone
+	readded, heldGone bool
 }
 
 func (in *c13Inst) inflight() map[string]int {
 	m := map[string]int{}
-	if in.held != nil && in.held.At() != "" && !in.held.Finished() {
+	if in.held != nil && in.held.At() != "" && !in.held.Finished() && !in.heldGone {
 		m[strings.SplitN(in.held.At(), ".", 2)[0]] = 1
 	}
 	return m
@@ -167,7 +195,7 @@ func (in *c13Inst) Step(ev int) *vh.HViol {
 		}
 		in.y.k.ReleaseHeld(in.held)
 		in.out = fmt.Sprintf("held-finished:%d", in.held.Result().Status)
-		in.held = nil
+		in.held, in.heldGone, in.y.orphans = nil, false, 0
 	case "add-backend":
 		if in.added {
 			in.out = "already-added"
@@ -175,6 +203,41 @@ func (in *c13Inst) Step(ev int) *vh.HViol {
 		}
 		in.added = true
 		if err := in.y.k.LB().AddBackend(config.BackendConfig{Name: "late", Address: "http://late.test:80", Weight: 1}); err != nil {
+			return &vh.HViol{Key: "C13/add-failed", What: err.Error()}
+		}
+		in.y.k.AdoptAll()
+		in.out = "added"
+	case "readd-b0":
+		if in.readded || in.twin {
+			in.out = "not-again"
+			break
+		}
+		in.readded = true
+		in.y.k.LB().RemoveBackend("b0")
+		if err := in.y.k.LB().AddBackend(config.BackendConfig{Name: "b0", Address: "http://b0.test:80", Weight: 1}); err != nil {
+			return &vh.HViol{Key: "C13/add-failed", What: err.Error()}
+		}
+		in.y.k.AdoptAll()
+		if in.y.before == nil {
+			in.y.before = map[string]int{}
+		}
+		for _, st := range in.y.k.Stubs() {
+			if st.Host() == "b0.test:80" {
+				in.y.before["b0"] = st.Hits()
+			}
+		}
+		if in.held != nil && in.held.At() == "b0.test:80" {
+			in.heldGone = true
+			in.y.orphans = 1
+		}
+		in.out = "re-registered"
+	case "add-same-name":
+		if in.twin || in.readded {
+			in.out = "already-added"
+			break
+		}
+		in.twin = true
+		if err := in.y.k.LB().AddBackend(config.BackendConfig{Name: "b0", Address: "http://b0.twin.test:80", Weight: 1}); err != nil {
 			return &vh.HViol{Key: "C13/add-failed", What: err.Error()}
 		}
 		in.y.k.AdoptAll()
@@ -206,7 +269,7 @@ func (in *c13Inst) Fingerprint() string {
 	if in.held != nil {
 		h = in.held.At()
 	}
-	return in.y.k.ControlState() + "|held:" + h + fmt.Sprint("|added:", in.added)
+	return in.y.k.ControlState() + "|held:" + h + fmt.Sprint("|added:", in.added, in.twin, in.readded, in.heldGone)
 }
 
 func c13Spec(p c13Params, depth int) vh.HSpec {
